@@ -31,7 +31,7 @@ def make_grid():
     return CTMCGrid(h=step * U, origin_coordinate=2, axes=[np.array([j * step * U for j in range(-2, 3)])])
 
 
-def sde_case(tid, coef, x0, mu4, dts4, dW4, dL4, coupled, mu4c=None, dW4c=None, dL4c=None):
+def sde_case(tid, coef, x0, mu4, dts4, dW4, dL4, coupled, mu4c=None, dW4c=None, dL4c=None, beta=0):
     from rpylib.distribution.sampling import SamplingMethod
     from rpylib.model.levydrivensde.levydrivensde import Constant, DiagX, LevyDrivenSDEModel
     from rpylib.montecarlo.configuration import ConfigurationMultiLevel
@@ -41,13 +41,19 @@ def sde_case(tid, coef, x0, mu4, dts4, dW4, dL4, coupled, mu4c=None, dW4c=None, 
     n = len(dts4)
     times = np.concatenate(([0.0], np.cumsum(dts4) / 4.0))
     dy16 = [mu4 * dts4[i] + 4 * (dW4[i] + dL4[i]) for i in range(n)]
-    hdr = {"kind": ("coupledsde:" if coupled else "sde:") + coef[0], "coef": coef[0], "c": coef[1], "x0": x0, "dy16": [dy16]}
+    t4 = [0] + [int(v) for v in np.cumsum(dts4)]
+    bdt16 = [beta * t4[i] * dts4[i] for i in range(n)]            # sde drift b(t, x) = beta * t at the LEFT end point, times dt
+    hdr = {"kind": ("coupledsde:" if coupled else "sde:") + coef[0] + (":tdrift" if beta else ""), "coef": coef[0], "c": coef[1],
+           "x0": x0, "dy16": [dy16], "bdt16": bdt16}
     ev = []
     try:
         atoms = [(k, 1) for k in range(-63, 64, 2)]
         driver = atomic.AtomLevyModel(atoms, sigma=0.0, bg_index=1.0)
         a = Constant(m=1, d=1, constant=float(coef[1])) if coef[0] == "const" else DiagX(1)
-        model = LevyDrivenSDEModel(driver=driver, x0=float(x0), a=a)
+        class TimeDrift(LevyDrivenSDEModel):
+            def drift(self, t=0, x=0):
+                return np.zeros_like(x) + beta * t
+        model = (TimeDrift if beta else LevyDrivenSDEModel)(driver=driver, x0=float(x0), a=a)
         grid = make_grid()
         product = product_for_init()
         if not coupled:
@@ -145,12 +151,12 @@ def main():
                 dW4 = [rng.choice(incs) for _ in range(n)]
                 dL4 = [rng.choice(incs) for _ in range(n)]
                 mu4 = rng.choice([0, 1, 2])
-                traces.append(sde_case(f"s{len(traces)}", coef, rng.choice([1, 2, 3]), mu4, dts4, dW4, dL4, False))
+                traces.append(sde_case(f"s{len(traces)}", coef, rng.choice([1, 2, 3]), mu4, dts4, dW4, dL4, False, beta=rng.choice([0, 1, 2])))
                 if rep % 2 == 0:
                     dW4c = [rng.choice(incs) for _ in range(n)]
                     dL4c = [rng.choice(incs) for _ in range(n)]
                     traces.append(sde_case(f"s{len(traces)}", coef, rng.choice([1, 2]), mu4, dts4, dW4, dL4, True,
-                                           mu4c=rng.choice([0, 1, 3]), dW4c=dW4c, dL4c=dL4c))
+                                           mu4c=rng.choice([0, 1, 3]), dW4c=dW4c, dL4c=dL4c, beta=rng.choice([0, 1])))
     for t in df_cases():
         t["tid"] = f"s{len(traces)}"
         traces.append(t)
